@@ -336,6 +336,8 @@ class NumFunc:
                 return ('pow', 'S', a, int(b[2]))
             if ta == 'S' and b[0] == 'const' and b[2] == Fraction(1, 2):
                 return ('app', 'S', 'nsqrt', [a])
+            if ta == 'S' and ast.unparse(node.right) == '1 / 3.0':
+                return ('app', 'S', 'ncbrt', [a])
             # opaque power (fractional exponent): becomes a parameter with a contract
             return self.opaque_call(node, 'pow')
         self.err(node, f"unsupported binary operation on types {ta},{tb}")
